@@ -51,6 +51,9 @@ typedef struct {
  *   "X <idx> exit=<n> sig=<n> timeout=<0|1> san=<hex|->" */
 void run_cases(int n, case_fn fn, void *ctx, run_opts o, FILE *out);
 extern int g_in_child;
+/* to be called first thing in a process forked by a case: when the case's own process is killed by its alarm, the forked
+ * process (a tool that spins, an update that hangs) must not live on as an orphan that eats a core */
+void die_with_parent(void);
 
 /* ---- env.c : environment seam ---- */
 enum { ROLE_NONE = 0, ROLE_INPUT, ROLE_OUTPUT, ROLE_TEMP, ROLE_SOURCE, ROLE_TARGET, ROLE_OTHER };
